@@ -1,5 +1,7 @@
 import Tyme.Driver.Util
 import Tyme.Driver.P01
+import Tyme.Driver.P20
+import Tyme.Driver.P10
 import Tyme.Driver.P14
 import Tyme.Driver.P09
 import Tyme.Driver.P18
@@ -25,6 +27,8 @@ def execOpAll (op : String) (a : List Int) : String :=
     <|> (P18.execOp op a)
     <|> (P09.execOp op a)
     <|> (P14.execOp op a)
+    <|> (P10.execOp op a)
+    <|> (P20.execOp op a)
     -- DISPATCH-EXEC   <|> (Pxx.execOp op a)
   match r with
   | none => "bad-op"
@@ -43,6 +47,8 @@ def specOpAll (op : String) (a : List Int) : String :=
     <|> (P18.specOp op a)
     <|> (P09.specOp op a)
     <|> (P14.specOp op a)
+    <|> (P10.specOp op a)
+    <|> (P20.specOp op a)
     -- DISPATCH-SPEC   <|> (Pxx.specOp op a)
   match r with
   | none => "n/a"
@@ -60,6 +66,8 @@ def runEnumAll (name : String) (args : List String) (out : IO.FS.Stream) : Optio
   <|> (P18.runEnum name args out)
   <|> (P09.runEnum name args out)
   <|> (P14.runEnum name args out)
+  <|> (P10.runEnum name args out)
+  <|> (P20.runEnum name args out)
   -- DISPATCH-ENUM   <|> (Pxx.runEnum name args out)
 
 def lineWith (f : String → List Int → String) (line : String) : String :=
